@@ -99,7 +99,7 @@ func genLoop(r *rand.Rand, b *strings.Builder, id *int, depth int, outerVar stri
 	*id++
 	L := *id
 	m := loopMeta{ID: L}
-	typ := []string{"int", "int", "int", "int8", "uint8", "uint32", "int64"}[r.Intn(7)]
+	typ := []string{"int", "int", "int", "int8", "uint8", "uint32", "int64", "uint"}[r.Intn(8)]
 	m.Type = typ
 	up := r.Intn(2) == 0
 	k := 1 + r.Intn(5)
@@ -140,6 +140,12 @@ func genLoop(r *rand.Rand, b *strings.Builder, id *int, depth int, outerVar stri
 	}
 	if typ == "int8" {
 		hi = []string{"n & 15", "10", "120"}[r.Intn(3)]
+	}
+	if typ == "uint" {
+		// as wide as the parameters but unsigned: uint(n) of a negative argument is a huge
+		// value, not n
+		lo = []string{"0", "n", "3", "n"}[r.Intn(4)]
+		hi = []string{"n", "10", "n & 15", "n + 3", "5"}[r.Intn(5)]
 	}
 	if typ == "int" && r.Intn(6) == 0 {
 		// a constant on the LEFT of a non-commutative operator in the start or the limit
@@ -739,7 +745,9 @@ func judge(res *evid.Result, fm fnMeta, fn *ssa.Function, sites map[int]*recSite
 					overflowed = true
 				}
 				res.Eval(1)
-				if want.Cmp(big.NewInt(rec[j])) != 0 {
+				// the probe logs int(v): for a 64-bit unsigned variable the logged number is the
+				// same bit pattern read as signed, so it is brought back to the variable's type
+				if want.Cmp(wrap(big.NewInt(rec[j]), phi.Type())) != 0 {
 					key := "iv-formula/" + m.Form + "/" + map[int]string{0: "loop-variable", 1: m.Extra}[j]
 					w := replay()
 					w["loop"], w["k"], w["logged"], w["formula"] = m, k, rec[j], fmt.Sprintf("{%s,+,%s} = %s", start, step, want)
